@@ -809,15 +809,19 @@ class C03(core.PropertyCheck):
         old_alrm = signal.signal(signal.SIGALRM, on_alarm)
         try:
             for budget in (10, 20):
-                signal.setitimer(signal.ITIMER_PROF, budget)
-                signal.alarm(120)
                 try:
-                    return self.run_impl_inner(case)
-                except TimeoutError as e:
-                    err = e
-                finally:
+                    try:
+                        signal.setitimer(signal.ITIMER_PROF, budget)
+                        signal.alarm(120)
+                        res = self.run_impl_inner(case)
+                    finally:
+                        signal.setitimer(signal.ITIMER_PROF, 0)
+                        signal.alarm(0)
+                    return res
+                except TimeoutError as e:   # also when the timer fires while the `finally` above is being entered
                     signal.setitimer(signal.ITIMER_PROF, 0)
                     signal.alarm(0)
+                    err = e
             _TIMEOUTS += 1
             return {"exc": "Timeout", "msg": str(err)}
         finally:
